@@ -1,6 +1,6 @@
 (* Executable model of the DAG exporters and constructors of bigtree:
-     bigtree/dag/export.py:27-203     dag_to_list / dag_to_dict / dag_to_dataframe (on top of dag_iterator)
-     bigtree/dag/construct.py:19-221  list_to_dag / dict_to_dag / dataframe_to_dag (name-keyed node table)
+     bigtree/dag/export.py:28-181     dag_to_list / dag_to_dict / dag_to_dataframe (on top of dag_iterator)
+     bigtree/dag/construct.py:20-221  list_to_dag / dict_to_dag / dataframe_to_dag (name-keyed node table)
      bigtree/node/dagnode.py:164-238  the `parents` setter with its loop guard (used as `child.parents = [p]`)
    No proofs in this file. *)
 From BT Require Import Base.Prelude Base.Str Base.Rose Algo.DagAlgo.
@@ -32,12 +32,12 @@ Definition export_attrs (md : amode) (a : attrs) : attrs :=
 Definition is_root (g : dag) (x : id) : bool := match parents g x with [] => true | _ => false end.
 
 (* ------------------------------------------------------------------------------------------- *)
-(* dag_to_list (export.py:27-51) *)
+(* dag_to_list (export.py:28-52) *)
 Definition dag_to_list (g : dag) (x : id) : list (str * str) :=
   map (fun e => (name g (fst e), name g (snd e))) (dag_iterator g x).
 
 (* ------------------------------------------------------------------------------------------- *)
-(* dag_to_dict (export.py:54-114).  A Python dict = association list in insertion order. *)
+(* dag_to_dict (export.py:55-114).  A Python dict = association list in insertion order. *)
 Record dentry := DE { de_name : str; de_parents : option (list str); de_attrs : attrs }.
 
 Fixpoint dget (d : list dentry) (k : str) : option dentry :=
@@ -77,7 +77,7 @@ Definition dag_to_dict (g : dag) (x : id) (md : amode) : res (list dentry) :=
   fold_left (dict_step g md) (dag_iterator g x) (Ret []).
 
 (* ------------------------------------------------------------------------------------------- *)
-(* dag_to_dataframe (export.py:117-177): one row per yielded pair, preceded by a row for the parent
+(* dag_to_dataframe (export.py:118-181): one row per yielded pair, preceded by a row for the parent
    when it is a root; then DataFrame(...).drop_duplicates().  A row = (name, parent, attributes);
    cells that are None/NaN are not listed (the harness drops them when it reads the frame). *)
 Record dfrow := DR { dr_name : str; dr_parent : option str; dr_attrs : attrs }.
@@ -160,7 +160,7 @@ Definition set_parent1 (b : bld) (c p : id) : res bld :=
 (* what a constructor returns: the table and the returned node (None: the placeholder DAGNode()) *)
 Definition built := (bld * option id)%type.
 
-(* list_to_dag (construct.py:19-70) *)
+(* list_to_dag (construct.py:20-60) *)
 Definition list_step (acc : res built) (r : str * str) : res built :=
   match acc with
   | Raise x => Raise x
@@ -178,7 +178,7 @@ Definition list_to_dag (rel : list (str * str)) : res built :=
   | _ => fold_left list_step rel (Ret (b_empty, None))
   end.
 
-(* dict_to_dag (construct.py:73-137) *)
+(* dict_to_dag (construct.py:63-125) *)
 Definition reserved (k : str) : bool :=
   str_eqb k [112; 97; 114; 101; 110; 116]%N                      (* "parent"   *)
   || str_eqb k [112; 97; 114; 101; 110; 116; 115]%N              (* "parents"  *)
@@ -216,7 +216,7 @@ Definition dict_to_dag (d : list dentry) : res built :=
          end
   end.
 
-(* dataframe_to_dag (construct.py:140-221) on the rows of a frame with columns
+(* dataframe_to_dag (construct.py:129-221) on the rows of a frame with columns
    (child, parent, attribute columns...) *)
 Definition df_row_step (acc : res built) (r : dfrow) : res built :=
   match acc with
